@@ -55,6 +55,8 @@ type vProfile struct {
 	asObj       bool  // As may be combined with result objects
 	errConcrete bool  // error results may be declared as a concrete error type
 	regScopes   []int // if set: the target scope of the i-th registration is fixed (needs scopesFirst with exactly that many scopes)
+	regParams   []int // if set: the maximal number of parameters of the i-th registration
+	regResults  []int // if set: the maximal number of results of the i-th registration
 	visErr      bool  // call Visualize(VisualizeError(err)) after every failed Invoke
 }
 
@@ -131,8 +133,16 @@ func (h *vHist) genFunc(kind int, tag string) *vFunc {
 	f := &vFunc{id: len(h.funcs), kind: kind}
 	h.funcs = append(h.funcs, f)
 	maxP := h.p.maxParams
+	maxR := h.p.maxResults
 	if kind == vInvoked {
 		maxP = h.p.invParams
+	} else if n := h.nRegsDrawn - 1; n >= 0 {
+		if n < len(h.p.regParams) {
+			maxP = h.p.regParams[n]
+		}
+		if n < len(h.p.regResults) {
+			maxR = h.p.regResults[n]
+		}
 	}
 	if kind == vDecor {
 		// func(T [, X]) T : decorates the key of its first parameter
@@ -184,8 +194,8 @@ func (h *vHist) genFunc(kind int, tag string) *vFunc {
 	}
 	if kind == vCtor {
 		nr := 1
-		if h.p.maxResults > 1 {
-			nr += verifNdInt(tag+".nr", h.p.maxResults)
+		if maxR > 1 {
+			nr += verifNdInt(tag+".nr", maxR)
 		}
 		for i := 0; i < nr; i++ {
 			r := &vResult{t: verifNdType(tag + ".r" + vItoa(i))}
@@ -219,13 +229,15 @@ func (h *vHist) genFunc(kind int, tag string) *vFunc {
 		for i, r := range f.results {
 			if r.form == 0 {
 				r.name, r.group = f.optName, f.optGroup
-				if f.optGroup != "" && h.p.flatten && verifNdBool(tag+".r"+vItoa(i)+".flat") {
+				// (flatten combined with As is an invalid input: the slice type itself
+				// would have to implement the interface; C14 covers it)
+				if f.optGroup != "" && h.p.flatten && f.optAs == 0 && verifNdBool(tag+".r"+vItoa(i)+".flat") {
 					r.flatten = 1 + verifNdInt(tag+".r"+vItoa(i)+".flen", 3)
 				}
 			} else {
 				if h.p.groups && verifNdBool(tag+".r"+vItoa(i)+".grp") {
 					r.group = h.groupName(tag + ".r" + vItoa(i))
-					if h.p.flatten && verifNdBool(tag+".r"+vItoa(i)+".flat") {
+					if h.p.flatten && f.optAs == 0 && verifNdBool(tag+".r"+vItoa(i)+".flat") {
 						r.flatten = 1 + verifNdInt(tag+".r"+vItoa(i)+".flen", 3)
 					}
 				} else if h.p.names > 1 {
@@ -691,14 +703,20 @@ func (h *vHist) afterInvoke(w *vWorld, r *vReg, o vOutcome, cl *vClosure, before
 	}
 	if cl.missing {
 		if len(failed) == 0 {
-			h.assert("C04.err", o.class == vcDig)
-			h.assert("C13.dig", o.class == vcDig)
+			// a dig error; where the graph also has a cycle (deferred verification)
+			// the cycle may be what gets reported
+			digErr := o.class == vcDig || (o.class == vcCycle && (w.permCyc || w.statCyc || w.resCyc))
+			h.assert("C04.err", digErr)
+			h.assert("C13.dig", digErr)
 		}
 		h.assert("C04.err", ran == 0)
 		verifWitness("missing")
 	} else if len(failed) == 0 && !w.deferV && !w.resCyc && !w.permCyc {
 		// "... the graph is acyclic ..." (also through decorator parameters)
 		h.assert("C04.ok", o.class == vcOK)
+		// ... in particular after earlier failures: a function that failed before is
+		// simply run again (no stale "called" mark, no stuck state)
+		h.assert("C07.ok", o.class == vcOK)
 	}
 	// bystanders: functions outside the closure did not run
 	for i, reg := range w.regs {
